@@ -34,7 +34,7 @@ TRUSTED = [
     'modelled, not verified: TemplateLoader.load / LRUCache (as in C15), Template._prepare only as "the callback performs these nested loads"',
 ]
 ASSUMPTIONS = [
-    'files do not change while the threads run (modifications happen in the set-up phase)',
+    'files do not change while the threads run (modifications happen in the set-up phase), except in the scenarios with a writer thread, which replaces a file (rename over the name) at every yield point of a load: those runs are judged by the oracle only (any version the file had is a correct result; a load after quiescence must return the current one)',
     'includes form a tree (no cycles), static hrefs, and are prepared under the lock by the callback (callback = lambda t: t.stream)',
     'schedules are explored up to a preemption bound and by seeded sampling: partial by nature',
 ]
@@ -86,6 +86,17 @@ SCENARIOS = [
      'files': dict((i, {'content': 10 + i}) for i in range(4)),
      'setup': [L(0), L(1), L(2), L(3)], 'threads': [[1, 2], [2, 0]], 'bound': 2},
 ]
+# a writer thread replaces a file (new file renamed over the name) while another thread loads it:
+# thread programs may contain ['W', base, content]; the writer has no yield points of its own, so
+# a preemption [[k, writer]] lets the replacement land exactly at yield point k of the load
+SCENARIOS.append(
+    {'name': 'replace-during-load', 'cap': 2, 'auto_reload': True, 'callback': False,
+     'files': {0: {'content': 10}}, 'setup': [], 'threads': [[0], [['W', 0, 20]]], 'bound': 1})
+SCENARIOS.append(
+    {'name': 'replace-during-reload', 'cap': 2, 'auto_reload': True, 'callback': False,
+     'files': {0: {'content': 10}, 1: {'content': 11}}, 'setup': [L(0), L(1), ['T', 0]],
+     'threads': [[0, 1], [['W', 0, 20]]], 'bound': 1})
+
 SCENARIOS_MANY = [
     {'name': 'three-threads', 'cap': 2, 'auto_reload': True, 'callback': False,
      'files': {0: {'content': 10}, 1: {'content': 11}, 2: {'content': 12}}, 'setup': [L(0), ['T', 0]],
@@ -102,13 +113,17 @@ def all_scenarios(thorough):
     for s in SCENARIOS + SCENARIOS_MANY:
         s = json.loads(json.dumps(s))
         s['files'] = dict((int(k), v) for k, v in s['files'].items())
-        if thorough:
+        if thorough and not has_writer(s):
             if s['bound'] == 2:
                 s['bound'] = 3
             else:
                 s['sample'] = s.get('sample', 0) * 20
         out.append(s)
     return out
+
+
+def has_writer(s):
+    return any(isinstance(x, list) for prog in s['threads'] for x in prog)
 
 
 def norm_scenario(s):
@@ -163,6 +178,7 @@ class Obs(object):
         self.returns = {}       # tid -> list of ('ok', template) | ('err', class name)
         self.loader = None
         self.numbering = None
+        self.versions = {}      # base -> contents the file had while the threads ran
 
     def obj(self, t):
         for i, x in enumerate(self.inst):
@@ -269,6 +285,21 @@ def build(scn, obs, e):
             os.utime(p, (1000000 + clock[0], 1000000 + clock[0]))
             clock[0] += 1
     obs.final_files = files
+    for b, f in files.items():
+        obs.versions[b] = [f['content']]
+
+    def replace_file(b, content):
+        """write the new version aside and rename it over the name (the open file object of a
+        load that is under way keeps the old content)"""
+        files[b] = dict(files.get(b, {}), content=content)
+        p = os.path.join(root, tname(b))
+        with open(p + '.new', 'w') as fh:
+            fh.write(file_text(b, files[b]))
+        os.utime(p + '.new', (1000000 + clock[0], 1000000 + clock[0]))
+        clock[0] += 1
+        os.replace(p + '.new', p)
+        obs.versions.setdefault(b, []).append(content)
+    obs.replace_file = replace_file
     return loader
 
 
@@ -281,6 +312,10 @@ def run_schedule(scn, schedule, record_where=False):
         def f():
             out = obs.returns.setdefault(tid, [])
             for b in names:
+                if isinstance(b, list):
+                    obs.replace_file(b[1], b[2])
+                    out.append(('wrote', b[2]))
+                    continue
                 try:
                     out.append(('ok', loader.load(tname(b))))
                 except sched._Abort:
@@ -323,6 +358,22 @@ def judge(scn, schedule, run, obs):
         if len(got) != len(names):
             return bad('thread %d performs all its loads' % tid, len(names), len(got))
         for b, (kind, val) in zip(names, got):
+            if isinstance(b, list):
+                continue
+            if len(obs.versions.get(b, [])) > 1 and kind == 'ok':
+                # the file was replaced while the threads ran: any version it had is correct
+                try:
+                    text = val.generate().render(encoding=None)
+                except Exception as ex:  # noqa
+                    text = 'render raises %s' % type(ex).__name__
+                allowed = []
+                for c in obs.versions[b]:
+                    fv = dict(files)
+                    fv[b] = dict(files[b], content=c)
+                    allowed.append(expected_render(fv, b))
+                if text not in allowed or os.path.basename(val.filepath) != tname(b):
+                    return bad('thread %d: load(%s) returns a version the file had' % (tid, tname(b)), allowed, text)
+                continue
             f = files.get(b)
             if f is None:
                 exp = ('err', 'TemplateNotFound')
@@ -349,6 +400,16 @@ def judge(scn, schedule, run, obs):
     lk = obs.loader._lock
     if lk.depth != 0 or lk.owner is not None:
         return bad('the lock is free at the end', 'depth 0', 'depth %d owner %r' % (lk.depth, lk.owner))
+    if scn['auto_reload']:
+        # with automatic reloading a call made after the threads are done sees what the files hold now
+        for b in sorted(k for k, v in obs.versions.items() if len(v) > 1):
+            try:
+                text = obs.loader.load(tname(b)).generate().render(encoding=None)
+            except Exception as ex:  # noqa
+                text = 'raises %s' % type(ex).__name__
+            if text != expected_render(files, b):
+                return bad('a load after the threads are done returns the current content of %s (auto_reload)' % tname(b),
+                           expected_render(files, b), text)
     if obs.unlocked:
         # nothing observable went wrong under this schedule, but the cache was touched by a thread
         # that did not hold the loader lock (asserted by the instrumented cache subclass)
@@ -496,7 +557,11 @@ def explore_shard(arg):
         if any(e[1] == 'blk' for e in obs.events):
             res.count('runs-with-a-blocked-acquire')
         snap = None
-        if run.deadlock is None and not run.errors:
+        if has_writer(scn):
+            # the interleaving model keeps the files fixed while threads run (C15's LoaderRace
+            # model and `racing_write_is_linearizable` cover the replacement): oracle only
+            res.count('runs-with-a-writer-thread (oracle only)')
+        elif run.deadlock is None and not run.errors:
             # what the model is asked, taken before the oracle renders anything
             try:
                 snap = (trace_line(scn, obs), expected_trace_answer(scn, obs)) + lru_replay_lines(scn, obs)
@@ -579,6 +644,75 @@ def explore_shard(arg):
                 res.disagreements.append({'stream': 'linked-structure',
                                           'case': {'kind': 'sched', 'scenario': scn, 'schedule': sch},
                                           'model': ans[:1200], 'real': exp[:1200]})
+    return res
+
+
+def nested_serial(arg):
+    """the sequential specification with nested loads (`loadN`, theorem each_load_correct_nested)
+    against the real loader: the top-level loads of a scenario performed one after the other by
+    one thread, in a seeded order, includes re-entering `load` from the callback"""
+    scn, seed = arg
+    scn = norm_scenario(scn)
+    res = Result()
+    if has_writer(scn):
+        return res
+    lines, expect, cases = [], [], []
+    try:
+        for k in range(6):
+            rng = random.Random('%s/%s/%d/C16-nested' % (seed, scn['name'], k))
+            loads = [(tid, b) for tid, names in enumerate(scn['threads']) for b in names]
+            if k:
+                rng.shuffle(loads)
+                loads = loads + [rng.choice(loads) for _ in range(rng.randrange(0, 4))]
+            e = env()
+            obs = Obs()
+            loader = build(scn, obs, e)
+            results = []
+            for tid, b in loads:
+                try:
+                    t = loader.load(tname(b))
+                    results.append([tid, [Atom('ok'), obs.obj(t)]])
+                except Exception as ex:  # noqa
+                    results.append([tid, [Atom('err'), Atom('CallbackError' if not isinstance(ex, (IOError, OSError)) and
+                                                             type(ex).__name__ not in ('TemplateNotFound', 'TemplateSyntaxError', 'TemplateError')
+                                                             else type(ex).__name__)]])
+            res.evaluations += 1
+            res.count('nested-serial:' + scn['name'])
+            cache = loader._cache
+            order = []
+            for key in cache:
+                order.append(key)
+                if len(order) > len(cache._dict) + 2:
+                    break
+            items = [[[N, B(False), int(os.path.basename(key)[1:-4])],
+                      obs.obj(cache._dict[key].value) if key in cache._dict else -1] for key in order]
+            lk = loader._lock
+            ncb = len(obs.inst) if scn['callback'] else 0
+            setup = [[Atom('W'), DIR, B(False), b, f['content'], B(bool(f.get('bad')))]
+                     for b, f in sorted(scn['files'].items())]
+            for op in scn['setup']:
+                if op[0] == 'L':
+                    setup.append([Atom('L'), op[1], B(False), N, N, 0, 0, B(False), N])
+                elif op[0] == 'W':
+                    setup.append([Atom('W'), DIR, B(False), op[1], op[2], B(bool(scn['files'].get(op[1], {}).get('bad')))])
+                elif op[0] == 'T':
+                    setup.append([Atom('T'), DIR, B(False), op[1]])
+            lines.append(proto.line(Atom('C16'), Atom('nested'), scn['cap'], B(scn['auto_reload']), B(scn['callback']),
+                                    [[Atom('D'), DIR, B(False)]], setup,
+                                    [[tid, wire_req(scn, b, False)] for tid, b in loads]))
+            expect.append(proto.enc([Atom('ok'), items, results, len(obs.inst), lk.depth, ncb]))
+            cases.append([[tid, b] for tid, b in loads])
+            if any(scn['files'].get(b, {}).get('includes') for _, b in loads) and scn['callback'] and not scn['auto_reload']:
+                res.count('nested-serial:with includes')
+    finally:
+        cleanup()
+    answers = proto.run_lines(lines)
+    for ld, ans, exp in zip(cases, answers, expect):
+        res.streams['nested-serial'] = res.streams.get('nested-serial', 0) + 1
+        if ans != exp:
+            res.disagreements.append({'stream': 'nested-serial', 'case': {'kind': 'selfcheck', 'variant': 'nested-serial',
+                                                                         'scenario': scn['name'], 'loads': ld},
+                                      'model': ans[:1200], 'real': exp[:1200]})
     return res
 
 
@@ -678,6 +812,8 @@ def run(ctx):
         res.merge(r)
     for r in pmap('harness.props.c16', 'validator_selfcheck', [0]):
         res.merge(r)
+    for r in pmap('harness.props.c16', 'nested_serial', [(scn, ctx.seed) for scn in scns]):
+        res.merge(r)
     res.failures.sort(key=lambda f: 1 if f.get('soft') else 0)
     inner = 0
     for scn, info in zip(scns, infos):
@@ -717,6 +853,12 @@ def replay(ctx, case):
         raise ValueError(case.get('kind'))
     scn = norm_scenario(case['scenario'])
     schedule = [[int(s), int(t)] for s, t in case['schedule']]
+    for prog in scn['threads']:
+        for x in prog:
+            # shrinking produces thread programs that are no programs
+            if not (isinstance(x, int) or (isinstance(x, list) and len(x) == 3 and x[0] == 'W' and
+                                           isinstance(x[1], int) and isinstance(x[2], int))):
+                raise ValueError('not a thread program')
     try:
         run, obs = run_schedule(scn, schedule)
         f = judge(scn, schedule, run, obs)
